@@ -21,10 +21,20 @@ def cmd_gen(args):
 
 def cmd_try(args):
     """development helper: generate, run verus, print mapped failures"""
-    G = driver.assemble()
+    canary = '--canary' in args
+    args = [a for a in args if a != '--canary']
+    G = driver.assemble(canary=canary)
     wd = tempfile.mkdtemp(prefix='xcpverif-')
     try:
         res = driver.run_verus(G, wd, extra=args)
+        if canary:
+            failed, tool, fn_status = driver.classify(G, res)
+            for t in tool:
+                print('TOOL', t)
+            bad = [fid for fid, g in G.fns.items() if not g.spec.external and (fid + '/canary') not in failed]
+            print('canaries that VERIFIED (contradictory assumptions!):', bad)
+            print('canaries failed as they must: %d of %d' % (len([1 for k in failed if k.endswith('/canary')]), len([1 for g in G.fns.values() if not g.spec.external])))
+            return 0
         failed, tool, fn_status = driver.classify(G, res)
         keep = '/tmp/gen.rs'
         shutil.copy(os.path.join(wd, 'gen.rs'), keep)
